@@ -369,3 +369,66 @@ func VerifC13Ids(h *verifh.H) {
 	}
 	h.Observe("ids", len(seen))
 }
+
+// VerifC13IdsRace: two clients write batches to DIFFERENT datasets at the same
+// time and both introduce identifiers that are new to the store — the same new
+// entity id, possibly the same new predicate and reference target — under a
+// symbolic schedule that may preempt before every lock acquisition (the id
+// mutex included) and every Badger access. After both were acknowledged: the
+// identifier tables are inverse to each other, no id belongs to two
+// identifiers, each entity is found under its identifier in the dataset it was
+// written to, and the unscoped lookup merges both versions.
+func VerifC13IdsRace(h *verifh.H) {
+	hub := VerifNewHub(h)
+	d1, err := hub.Dsm.CreateDataset("d1", nil)
+	h.Assert(err == nil, "create")
+	d2, err := hub.Dsm.CreateDataset("d2", nil)
+	h.Assert(err == nil, "create")
+	mk := func(tag string) []*Entity {
+		v := NewEntity("ns0:v", 0)
+		v.Properties["ns0:from"] = tag
+		if h.Choice(tag+"ref", 2) == 1 {
+			v.References["ns0:q"] = "ns0:t"
+		}
+		out := []*Entity{v}
+		if h.Choice(tag+"two", 2) == 1 {
+			w := NewEntity("ns0:w"+tag, 0)
+			w.Properties["ns0:from"] = tag
+			out = append(out, w)
+		}
+		return out
+	}
+	b1, b2 := mk("a"), mk("b")
+	var e1, e2 error
+	h.SymbolicLocks()
+	h.SymbolicTxns()
+	h.SymbolicSched(h.Param("preemptions", 2))
+	h.Go(func() { e1 = d1.StoreEntities(b1) })
+	h.Go(func() { e2 = d2.StoreEntities(b2) })
+	h.Assert(h.Wait(), "both writers complete")
+	h.Assert(e1 == nil && e2 == nil, "both batches are acknowledged")
+	u2i, i2u := vIDTables(h, hub)
+	used := map[uint64]string{}
+	for u, id := range u2i {
+		other, dup := used[id]
+		h.Assert(!dup, "no internal id is given to two identifiers :: id="+itoa(int(id))+" "+u+" and "+other)
+		used[id] = u
+		h.Assert(i2u[id] == u, "the id -> identifier table is the inverse of the identifier -> id table :: "+u+" -> "+itoa(int(id))+" -> "+i2u[id])
+	}
+	for id, u := range i2u {
+		h.Assert(u2i[u] == id, "every internal id belongs to the identifier that maps to it :: id="+itoa(int(id))+" names "+u+" which maps to "+itoa(int(u2i[u])))
+	}
+	for dn, batch := range map[string][]*Entity{"d1": b1, "d2": b2} {
+		for _, e := range batch {
+			got, err := hub.Store.GetEntity(e.ID, []string{dn}, true)
+			h.Assert(err == nil && got != nil && got.Recorded != 0 && len(got.Properties) == 1, "an acknowledged entity is found under its identifier in its dataset :: ds="+dn+" id="+e.ID)
+		}
+	}
+	m, err := hub.Store.GetEntity("ns0:v", nil, true)
+	h.Assert(err == nil && m != nil, "unscoped lookup")
+	if m != nil {
+		fl, isList := m.Properties["ns0:from"].([]interface{})
+		h.Assert(isList && len(fl) == 2, "the unscoped lookup merges the versions of both datasets :: from="+vRenderVal(m.Properties["ns0:from"]))
+	}
+	h.Observe("ids", len(u2i))
+}
